@@ -334,8 +334,17 @@ where
                 }
 
                 loop {
-                    // Disable the notifier if there was one left over
-                    stream_core.lock().unwrap().notify_stream_closed = None;
+                    {
+                        let mut stream_core = stream_core.lock().unwrap();
+
+                        // Stop if the output stream was dropped while the last item was being processed (nothing will wake us up later on)
+                        if stream_core.closed {
+                            return false;
+                        }
+
+                        // Disable the notifier if there was one left over
+                        stream_core.notify_stream_closed = None;
+                    }
 
                     // Poll the stream
                     let next = {
@@ -346,7 +355,14 @@ where
                     match next {
                         // Wait for notification when the stream goes pending
                         Poll::Pending       => {
-                            stream_core.lock().unwrap().notify_stream_closed = Some(desync_waker.clone());
+                            let mut stream_core = stream_core.lock().unwrap();
+
+                            // If the output stream was dropped while we were polling the input, there's nothing left to notify us
+                            if stream_core.closed {
+                                return false;
+                            }
+
+                            stream_core.notify_stream_closed = Some(desync_waker.clone());
                             return true
                         },
 
